@@ -12,7 +12,7 @@ Does NOT decide the outcome at each crash instant (that is execution), torn writ
 call, fsync / power loss.
 """
 from nl import core, codec, panics, locks
-from nl.core import origins, callee, callee_decl, is_log, const_str
+from nl.core import origins, callee, callee_decl, is_log, const_str, const_val
 from nl.model import short
 
 RULES = {
@@ -24,6 +24,9 @@ RULES = {
     'C11.e': 'every file suffix the snapshot leaves behind is opened by the loader',
     'C11.f': 'the loader of the data files has no unwrap / expect / index that a short or garbled file can trigger',
     'C11.g': 'the addresses the in-place key update writes at are right: the key-file size is measured after the reclaiming rename (C06.g), the loader advances its running offset for every record (C06.h), the writer records an offset before it advances it (C06.i)',
+    'C11.h': 'the loader keeps every key record it reads: inside its record loop the only conditions that decide whether the entry is '
+             'inserted are the deleted-version marker and the end-of-file test of a read — a size / bounds test that skips a record drops a '
+             'previously persisted key (its old value becomes unreachable too)',
 }
 
 
@@ -267,6 +270,87 @@ def _run(ck, m):
               'the loader unwraps %d reads/decodes (%s …): a key file cut short by a crash makes the next start panic instead of '
               'ignoring the torn tail' % (len(bad), '; '.join(bad[:3])), '%s:%s' % (b.file, b.line))
 
+    # the files a start-up reads may be cut short at any byte by a kill during their first write (metadata: create, id, strategy are
+    # three steps).  The tolerant `read` leaves the buffer's default; a `read_exact` whose result is unwrapped turns the short file
+    # into a panic of the loader thread, i.e. into a start that fails for every database
+    exact = []
+    nread = 0
+    for b in P.user_bodies():
+        if not b.id.startswith(('nundb::storage::disk::', 'nundb::disk_ops::', 'nundb::storage::common::')):
+            continue
+        for bi, t in b.calls():
+            d = callee_decl(t)
+            if d in ('std::io::Read::read', 'std::io::Read::read_exact', 'std::io::Read::read_to_end', 'std::io::Read::read_to_string'):
+                nread += 1
+            if d != 'std::io::Read::read_exact':
+                continue
+            users = [callee_decl(t2) for x, t2 in b.calls() if any(r[0] == 'call' and r[1] == bi for a in t2['args']
+                                                                   for r in origins(b, a, stop_at_calls=True))]
+            if any(u.endswith(('Result::unwrap', 'Result::expect')) for u in users):
+                exact.append('%s@%s' % (short(b.id), b.loc(bi)))
+    ck.ob('C11.f', 'storage::disk', 'no-unwrapped-read_exact', not exact,
+          'no reader of the persistence modules unwraps a read_exact (%d read calls examined)' % nread if not exact else
+          'read_exact(..).unwrap() at %s: a file cut short by a kill during its first write (a metadata file of 0 or 8 bytes) makes the '
+          'next start panic with UnexpectedEof while it loads the databases — none of them is available any more' % exact, exact[0] if exact else '')
+    ck.floor('C11.f', nread, 8, 'read calls in the persistence modules')
+    loader_keeps_every_record(ck, m)
+
+
+def loader_keeps_every_record(ck, m):
+    """C11.h — see RULES"""
+    from props.C07 import natural_loops
+    from nl.locks import backward_slice
+    P = m.prog
+    ld = [b for b in P.user_bodies() if b.id.endswith('storage::disk::create_db_from_file_name')]
+    if len(ld) != 1:
+        ck.undecided('C11.h', 'loader', 'anchor', 'disk loader not found')
+        return
+    lb = ld[0]
+    VM = 'std::collections::HashMap::<std::string::String, nundb::bo::Value>::insert'
+    n = 0
+    for h, body in natural_loops(lb):
+        ins = [bi for bi in body if lb.term(bi)['k'] == 'call' and lb.term(bi)['f'].get('dargs', '').startswith(VM)]
+        reads = [bi for bi in body if lb.term(bi)['k'] == 'call' and callee_decl(lb.term(bi)).startswith('std::io::Read::read')]
+        if not ins or not reads:
+            continue
+        n += 1
+        extra = []
+        for sb in sorted(body):
+            ts = lb.term(sb)
+            if ts['k'] != 'switch':
+                continue
+            succ = [x for x in lb.succ(sb) if not lb.blocks[x].get('cleanup')]
+            can = [any(i_ in lb.reach_from([x], stop=lambda y: y == h or y not in body, include_start=True) for i_ in ins) for x in succ]
+            if all(can) or not any(can):
+                continue
+            # what the deciding value is made of
+            consts, srcs = set(), []
+            pl = ts['o'].get('c') or ts['o'].get('m')
+            direct = True
+            for (dbi, dsi, kind, rv) in (lb.defs().get(pl['l'], []) if pl else []):
+                if kind == 'assign' and rv['k'] == 'bin':
+                    direct = False
+                    for k_ in ('a', 'b'):
+                        rs = origins(lb, rv[k_], stop_at_calls=True)
+                        consts |= {const_val(r) for r in rs if r[0] == 'const'}
+                        srcs += [r for r in rs if r[0] != 'const']
+                elif kind == 'assign' and rv['k'] == 'discr':
+                    srcs += list(core.place_origins(lb, rv['p'], stop_at_calls=True))
+            if direct and not srcs:
+                srcs = list(origins(lb, ts['o'], stop_at_calls=True))
+            marker = any(isinstance(c, int) and c < 0 for c in consts)
+            # the end-of-file test: the Result of a read matched directly, or the count it returned compared with zero
+            from_read = bool(srcs) and all(r[0] == 'call' and callee_decl(lb.term(r[1])).startswith('std::io::Read::read') for r in srcs)
+            eof = from_read and (direct or consts == {0})
+            if marker or eof:
+                continue
+            extra.append(lb.loc(sb))
+        ck.ob('C11.h', short(lb.id), 'loader-keeps-every-record', not extra,
+              'inside the record loop only the deleted marker and the end-of-file test decide whether an entry is inserted' if not extra else
+              'the loader can skip a record on another condition (%s): a key whose record is on disk is not loaded — a bounds test that counts '
+              'bytes the loader never reads (the status trailer still in the writer\'s buffer at the kill) drops an updated key together with its '
+              'old value' % extra, extra[0] if extra else '')
+    ck.floor('C11.h', n, 1, 'record loops of the loader (read + insert)')
 
 
 def _const_eval(b, operand, depth=0):
